@@ -179,6 +179,28 @@ fn run_case(case: &J) -> J {
             ev["records"] = json!([]);
         }
     }
+    // the module encoded after the report was pulled: the calls in its code must be in the index space
+    // the records use
+    let mut calls: Vec<String> = vec![];
+    let mut enc_panic = false;
+    match guarded(|| module.encode()) {
+        Ok(bytes) => {
+            for p in wasmparser::Parser::new(0).parse_all(&bytes).flatten() {
+                if let wasmparser::Payload::CodeSectionEntry(b) = p {
+                    if let Ok(r) = b.get_operators_reader() {
+                        for o in r.into_iter().flatten() {
+                            if let wasmparser::Operator::Call { .. } = o {
+                                calls.push(format!("{:?}", o));
+                            }
+                        }
+                    }
+                }
+            }
+        }
+        Err(_) => enc_panic = true,
+    }
+    ev["calls_after"] = json!(calls);
+    ev["encode_after_panic"] = json!(enc_panic);
     ev
 }
 
